@@ -361,6 +361,14 @@ class TreeExec:
         if data not in ond.pgs[pg]:
             ond.pgs[pg].append(data)
 
+    def op_pg_declare(self, obj, pg):
+        """Declare a property group WITHOUT members (properties None): it is a child of the
+        object that is not an Entity and that no data removal ever empties."""
+        ond = self.model.nodes[obj]
+        o = self.ent(obj)
+        self._lib(lambda: o.create_property_group(name=pg))
+        ond.pgs.setdefault(pg, [])
+
     def op_pg_add_foreign(self, obj, own, foreign, pg):
         """Put [own data, data of ANOTHER object] (by identifier) in a property group in one
         call: the own one is added, the foreign one must be ignored (or the call refused) - a
@@ -398,6 +406,10 @@ class TreeExec:
         for k in kids:
             self.events.append(("removed", "parent", [k] + self.model.descendants(k), len(self.results)))
             self.model.remove(k, "parent")
+        if parent in self.model.nodes and self.model.nodes[parent].kind == "object":
+            # the list handed to remove_children named every property group as well,
+            # including declared-but-empty ones that no data removal would have emptied
+            self.model.nodes[parent].pgs.clear()
 
     def _pg(self, o, pg):
         found = o.get_property_group(pg)[0]
@@ -798,6 +810,11 @@ def enabled(model: Model, alpha: dict) -> list:
                 for pg in alpha.get("pgs", ("P", "Q")):
                     if d not in o.pgs.get(pg, []):
                         ops.append(["pg_add", o.idx, d, pg])
+    if alpha.get("pg_declare"):
+        for o in objects:
+            for pg in alpha["pg_declare"]:
+                if pg not in o.pgs:
+                    ops.append(["pg_declare", o.idx, pg])
     if alpha.get("pg_foreign"):
         for o in objects:
             own = [c for c in o.children if DATA_KINDS[model.nodes[c].dkind] == "VERTEX"]
